@@ -44,6 +44,18 @@ func genProg(t *rapid.T) Prog {
 		g.genFunc("exported")
 	}
 	g.genCalls()
+	if g.chance(3) {
+		// An exported function with type-only or blank parameters is valid Go; the compiler documents that it refuses
+		// such a method (the manifest could not name its parameters). Either it does, or manifest, debug information
+		// and INITSLOT have to agree on the two parameters (checkABI compares with the source).
+		nm := ""
+		if g.chance(40) {
+			nm = "_"
+		}
+		g.pr.Funcs = append(g.pr.Funcs, Func{Name: "Fanon", Params: []Field{{nm, "int"}, {nm, "string"}}, Results: []Field{{"", "int"}},
+			Body: []*Node{{K: "return", A: []*Node{ilit(7)}}}})
+		g.mark("anon-exported-param")
+	}
 	for f := range g.feat {
 		g.pr.Feat = append(g.pr.Feat, f)
 	}
@@ -331,7 +343,7 @@ func (g *gen) genFunc(kind string) {
 		f.noSoftExpr = true
 	}
 	// named results
-	named := len(sig.results) > 0 && g.chance(30) && kind != "safe"
+	named := len(sig.results) > 0 && (g.chance(30) || len(sig.results) > 1 && g.chance(25)) && kind != "safe"
 	if named && f.recovers && !g.on(kRecoverNamed) {
 		named = false
 	}
@@ -424,6 +436,15 @@ func (g *gen) genFunc(kind string) {
 	fn.Name = sig.name
 	fn.Params = sig.params
 	fn.Results = f.results
+	if g.chance(35) {
+		fn.Group = true
+		if fieldListG(fn.Params, true) != fieldListG(fn.Params, false) {
+			g.mark("grouped-params")
+		}
+		if fieldListG(fn.Results, true) != fieldListG(fn.Results, false) {
+			g.mark("grouped-results")
+		}
+	}
 
 	// (parameters and the function body share one scope in Go)
 	var body []*Node
